@@ -31,6 +31,36 @@ def work_faults(chunk, st):
             st.sample({'arch': arch, 'plan': plan, 'rate_test': rate, 'connections': len(res.world.conns)})
 
 
+def work_zoo(chunk, st):
+    from props import zoo
+    for e in map(zoo.get, chunk):
+        for opts in (['-n'], ['-n', '-j']):
+            res = zoo.audit(e, opts + (['-1'] if e['ssh1'] and not e['versions_differ'] else []))
+            arch = 'E' if e['versions_differ'] else 'A'
+            st.execution(res.world, outcome=('zoo', len(res.world.conns)), root=('zoo', e['name'], tuple(opts)), nontrivial=('zoo', e['name'], tuple(opts)))
+            judge(res, arch, [], False, st, {'peer': e['name'], 'opts': opts})
+    st.sample({'zoo_peers': list(chunk[:3])}, cap=3)
+
+
+def work_degenerate(chunk, st):
+    # degenerate group-exchange groups handed to the host-key probe: the probe fails, the next connection must start afresh
+    for _t, p, g in chunk:
+        for pattern in ('always', 'first-only'):
+            srv = F._srv_D2(g=g, p=p)
+            if pattern == 'first-only':
+                good = F._srv_D2()
+                seen = [0]
+
+                def prime(bits, srv=srv, good=good, p=p, seen=seen):
+                    seen[0] += 1
+                    return p if seen[0] == 1 else good._gex_prime(bits)
+                srv._gex_prime = prime
+            res = H.audit(srv, opts=['-n', '--skip-rate-test'])
+            res.peer = srv
+            st.execution(res.world, outcome=('D2p', pattern, len(res.world.conns)), root=('D2p', p, g, pattern), nontrivial=('D2p', p, g, pattern))
+            judge(res, 'D2', [], False, st, {'arch': 'D2', 'gex_group': {'p': p, 'g': g}, 'pattern': pattern})
+
+
 # ---- rate-phase behaviours
 RATE_ALPHABET = ['normal', 'close', 'exceeded', 'refuse', 'silent']
 
@@ -196,6 +226,10 @@ def run(tier, seed):
             for latency in ((0.01,) if tier == 'quick' else (0.01, 0.05)):
                 rate_tasks.append((pat, ('curve25519-sha256',), 1, 'standard', latency))
     par.pmap(work_rate, rate_tasks, stats=st)
+    from props import c09
+    par.pmap(work_degenerate, c09.degenerate_gex_tasks(), stats=st, procs=1)
+    from props import zoo
+    par.pmap(work_zoo, zoo.names(tier), stats=st, chunk=6)
     check_no_dos_without_option(st)
     vcases = []
     for arch, short, plan, rate in H.pick([t for t in tasks if not t[3] and t[0] != 'G'], seed, 20 if tier == 'quick' else 100):
@@ -208,7 +242,7 @@ def run(tier, seed):
         rule='connection-log monitor over: (a) the C09 fault space (every archetype, %s faults, with the rate check skipped; message-level close/stall/'
              'reset/refuse faults again with the rate check on for B, C, D1); (b) rate-phase behaviours %s (and every repeating pattern of 2-3 different '
              'per-connection answers over {banner, close, MaxStartups, refuse, silent}) x 3 kex sets x {1,3} host keys x {standard, '
-             '-P, -M, --skip-rate-test} x select latencies; (c) ordinary option sets never produce a flood pattern. Bounds: connections <= initial + '
+             '-P, -M, --skip-rate-test} x select latencies; (c) ordinary option sets never produce a flood pattern; (d) the cooperative peers of props/zoo.py (every host-key type, certificate, GEX policy, SSH-1). Bounds: connections <= initial + '
              'probed host-key types + 9 per GEX algorithm (+ 38 completed, 3 concurrent for the rate check; 0 when skipped or no DH kex), key-exchange '
              'requests only on probe connections and one exchange per connection, every socket closed at exit' % (
                  'message-level' if tier == 'quick' else 'all (truncation every 2nd byte)', RATE_BEHAVIOURS),
